@@ -169,6 +169,11 @@ class C02(Prop):
                 k["expire"] = E(maybe_bad(expire()))
         elif m in ("get_many", "gets_many", "delete_many"):
             ks = [key() if rng.random() < 0.35 else rng.choice(good) for _ in range(rng.randint(0, 5))]
+            if rng.random() < 0.03:
+                # a very long key list with one illegal key somewhere late (batching / flushing boundaries)
+                n = rng.choice([513, 600, 1025, 1100])
+                ks = [b"k%d" % i for i in range(n)]
+                ks[min(n - 1, rng.choice([n - 1, 512, n // 2 + 300, 520]))] = rng.choice([b"bad key", b"", b"x\r\ny", "é" * 3])
             a = [E(ks)]
             if m == "delete_many" and nr is not None:
                 k["noreply"] = nr
@@ -386,7 +391,7 @@ class C02(Prop):
         return ("rejected-before-sending", "accepted-and-parsed", "whitespace-only-key", "empty-key",
                 "key-at-250-boundary", "value-with-protocol-text-stored", "non-integer-argument",
                 "illegal-key-inside-multi-key-call", "unicode-key-accepted",
-                "token-shared-between-stats-argument-and-key", "write-interrupted-after-partial-send")
+                "token-shared-between-stats-argument-and-key", "write-interrupted-after-partial-send", "illegal-key-late-in-a-very-long-key-list")
 
     def probes(self, scn, res):
         p = {}
@@ -417,6 +422,8 @@ class C02(Prop):
                 p["unicode-key-accepted"] = 1
         if len(keys) > 1 and rec.outcome == "raise":
             p["illegal-key-inside-multi-key-call"] = 1
+            if len(keys) > 512:
+                p["illegal-key-late-in-a-very-long-key-list"] = 1
         for c in rec.commands:
             if c[2] is not None and len(c[2]) in (249, 250):
                 p["key-at-250-boundary"] = 1
